@@ -545,8 +545,19 @@ class OpenDocument:
         if objectname is None:
             document.folder = u"%s/Object %d" % (self.folder, len(self.childobjects))
         else:
+            if not objectname.startswith(u"/"):
+                objectname = u"/" + objectname
             document.folder = objectname
         return u".%s" % document.folder
+
+    def _objectfolder(self, subobject):
+        """
+        The folder of the package an embedded object is stored in: the one
+        the reference returned by addObject names.
+        @param subobject instance of OpenDocument attached with addObject
+        @return a unicode string ending with a slash
+        """
+        return subobject.folder[1:] + u"/"
 
     def _savePictures(self, anObject, folder):
         """
@@ -573,10 +584,8 @@ class OpenDocument:
 #       if hasPictures:
 #           self.manifest.addElement(manifest.FileEntry(fullpath="%sPictures/" % folder, mediatype=""))
         # Look in subobjects
-        subobjectnum = 1
         for subobject in anObject.childobjects:
-            self._savePictures(subobject, u'%sObject %d/' % (folder, subobjectnum))
-            subobjectnum += 1
+            self._savePictures(subobject, self._objectfolder(subobject))
 
     def __replaceGenerator(self):
         """
@@ -716,10 +725,8 @@ class OpenDocument:
             self._z.writestr(zi, anObject.metaxml().encode("utf-8") )
 
         # Write subobjects
-        subobjectnum = 1
         for subobject in anObject.childobjects:
-            self._saveXmlObjects(subobject, u'%sObject %d/' % (folder, subobjectnum))
-            subobjectnum += 1
+            self._saveXmlObjects(subobject, self._objectfolder(subobject))
 
 # Document's DOM methods
     def createElement(self, elt):
